@@ -97,7 +97,22 @@ func genC20(seed uint64, tier string, idx int) (p *Plan) {
 		p.Expect.Extra[fmt.Sprintf("ver%d", ci)] = int64(ver)
 		n := 1 + g.r.intn(20)
 		var frames []SentFrame
+		serial := 0
 		for i := 0; i < n; i++ {
+			if g.r.chance(8) {
+				// a request for a command the simulator has no default body for yields no frame; the next frame's
+				// serial is still one greater than the previous frame's
+				un := []uint16{0x0104, 0x0805, 0x0800, 0x0801, 0x0705, 0x8001, 0x0000, 0xffff}[g.r.intn(8)]
+				if raw := t.CreateDefaultCommandData(consts.JT808CommandType(un)); len(raw) == 0 {
+					p.Faults = append(p.Faults, "input.unsupported_command_requested")
+					continue
+				} else {
+					serial++
+					frames = append(frames, SentFrame{ID: un, Serial: uint16(serial), Raw: raw, Valid: true, Name: HexStr(phone), Default: true})
+					continue
+				}
+			}
+			serial++
 			cmd := termCmds[g.r.intn(len(termCmds))]
 			var raw []byte
 			custom := g.r.chance(45)
@@ -114,7 +129,7 @@ func genC20(seed uint64, tier string, idx int) (p *Plan) {
 			} else {
 				raw = t.CreateDefaultCommandData(consts.JT808CommandType(cmd))
 			}
-			sf := SentFrame{ID: cmd, Serial: uint16(i + 1), Raw: raw, Valid: true, Name: HexStr(phone), Default: !custom}
+			sf := SentFrame{ID: cmd, Serial: uint16(serial), Raw: raw, Valid: true, Name: HexStr(phone), Default: !custom}
 			if custom {
 				sf.Body = customBody
 			}
